@@ -32,6 +32,7 @@ def _blocks():
     B['sstr@4'] = [(sp(4) + ">>> s = '''", 'prompt'), (sp(4) + '    inner', 'inner'), (sp(4) + "    '''", 'inner')]
     B['w1@4'] = [(sp(4) + 'out1', 'other')]
     B['w2@4'] = [(sp(4) + 'out1', 'other'), (sp(4) + '  out2', 'other')]
+    B['w1t@4'] = [(sp(4) + 'out1   ', 'other')]          # a want line ending in blanks
     B['w1@8'] = [(sp(8) + 'deeper out', 'other')]
     B['wdots@4'] = [(sp(4) + '...', 'bare')]
     B['tabs1'] = [('\t>>> t = 1', 'prompt')]
@@ -41,7 +42,7 @@ def _blocks():
 
 BLOCKS = _blocks()
 NAMES = ['s1@4', 'w1@4', 'blank', 'prose@4', 'prose@0', 'prose@8', 'tag@4', 's1@0', 's1@8', 's2@4', 's2d@4',
-         's2dt@4', 'sstr@4', 'w2@4', 'w1@8', 'wdots@4', 'tabs1', 'tabw', 's2u@4', 'sstrd@4']
+         's2dt@4', 'sstr@4', 'w2@4', 'w1@8', 'wdots@4', 'tabs1', 'tabw', 's2u@4', 'sstrd@4', 'w1t@4']
 assert set(NAMES) == set(BLOCKS)
 DEFAULT = {'s1@4', 'w1@4', 'blank', 'prose@4'}
 
